@@ -335,3 +335,7 @@ _upd('C06',
      CLAIMED['C06'][1] + ' End to end: the Circuit object built from a decoded solution (modelled, compared with _get_circuit_by_model on every run) '
      'has inputs 0..n-1 in order, one output per requested output, and computes the table wherever it is defined.',
      'pysat absent: shim solver (DPLL / z3, models re-checked); the solver is a parameter of the theorem. Time-limit path and DB shortcut not modelled.')
+
+_upd('C05',
+     CLAIMED['C05'][1] + ' Total correctness: the transformation returns on every well-formed circuit (its recursion depth never exceeds the number of gates).',
+     'pysat is absent in this sandbox: a shim (DPLL / z3 -dimacs, models re-checked) stands in for the solver; the solver is a parameter of the theorem. CPython\'s recursion limit is not modelled.')
